@@ -18,9 +18,12 @@ contract("C19.cache_lock_enter",
          params={"self": "CacheLock"}, returns=None, enc="native",
          raises={"CacheException": "True"},
          modifies=["self.cache_lock", "self.current_timestamp"],
-         ghost={"sets": {"cache_locked": "True"}},
+         ghost={"sets": {"cache_locked": "True"}, "init": {"fs_mkdir_may_clash": "False"}},
          ensures={
              "C19.L1.returns_only_with_lock_held": "self.cache_lock is not None and self.cache_lock.held",
+             # "runs concurrently in several processes ... no later or concurrent load fails": two first users may both find the cache
+             # folder missing - creating it must tolerate that the other one was faster
+             "C19.L1.creating_the_folder_tolerates_a_concurrent_creator": "not fs_mkdir_may_clash",
          })
 
 contract("C19.cache_lock_exit",
@@ -30,15 +33,18 @@ contract("C19.cache_lock_exit",
          requires=["self.cache_lock is not None and self.cache_lock.held"],
          raises={"ValueError": "True"},
          modifies=["heap:PLock.held"],
-         ghost={"sets": {"cache_locked": "False"}, "init": {"fs_remove_count": "0"}},
+         ghost={"sets": {"cache_locked": "False"}, "init": {"fs_remove_count": "0", "time_written": "0"}},
          ensures={"C19.L1.released_on_exit": "not self.cache_lock.held",
+                  # "a refresh attempted within the refresh interval is skipped": the time of the ATTEMPT is recorded on every way out of
+                  # the locked region (also when the refresh failed, e.g. offline) - exactly when this holder keeps the time at all
+                  "C19.L3.attempt_time_recorded_on_every_exit_iff_this_holder_keeps_time": "time_written == (1 if self.write_time else 0)",
                   # flock discipline: the lock FILE stays - unlinking it lets a waiter lock the old inode while a newcomer locks a new file
                   "C19.L1.lock_file_is_never_unlinked": "fs_remove_count == 0"})
 
 contract("C19.write_last_cached_time",
          file="hed/schema/hed_cache_lock.py", func="_write_last_cached_time",
          params={"new_time": "Real", "cache_folder": "Str"}, returns=None, enc="native",
-         raises={"ValueError": "True"}, ghost={"init": {"fs_non_truncating_opens": "0"}},
+         raises={"ValueError": "True"}, ghost={"init": {"fs_non_truncating_opens": "0"}, "sets": {"time_written": "time_written + 1"}},
          ensures={"C19.L3.write_only_documented_error": "True",
                   # bookkeeping: the file holds THE time of the last refresh - it is replaced, never appended to (the reader takes the first line)
                   "C19.L3.timestamp_replaces_the_previous_one": "fs_non_truncating_opens == 0"})
